@@ -344,3 +344,131 @@ kfold_indices!(c16_kfold_indices_shuffle_n5_k2, 5, 2, true, 8);
 kfold_indices!(c16_kfold_indices_shuffle_n6_k2, 6, 2, true, 9);
 // @vp name=c16_kfold_indices_shuffle_n7_k3 prop=C16 tier=thorough t=3000 fns=KFold::test_indices size=n=7,k=3 dom=shuffle=arbitrary-permutation stubs=fake_thread_rng,any_perm,no_format
 kfold_indices!(c16_kfold_indices_shuffle_n7_k3, 7, 3, true, 10);
+
+// ---------------------------------------------------------------------------------------------
+// cross_val_predict / cross_validate with the real KFold splitter and an instrumented estimator that records the row ids it was
+// fitted on and echoes row ids: every model is fitted on exactly its fold's training rows (target still attached), asked only
+// about rows it has not seen, and every held-out prediction lands at the sample's original position.
+// Column 0 of x carries the row id; column 1 and the targets are symbolic.
+// ---------------------------------------------------------------------------------------------
+use smartcore::api::Predictor;
+use smartcore::model_selection::{cross_val_predict, cross_validate};
+
+pub struct Echo<const N: usize> {
+    seen: [bool; N],
+}
+impl<const N: usize> Predictor<DenseMatrix<f64>, Vec<f64>> for Echo<N> {
+    fn predict(&self, x: &DenseMatrix<f64>) -> Result<Vec<f64>, Failed> {
+        let n = x.shape().0;
+        let mut out = vec![0f64; n];
+        for i in 0..n {
+            let id = x.get(i, 0) as usize;
+            out[i] = id as f64 + if self.seen[id] { 1000.0 } else { 10.0 };
+        }
+        Ok(out)
+    }
+}
+
+macro_rules! cv_predict {
+    ($name:ident, $n:expr, $k:expr, $shuffle:expr, $unw:expr) => {
+        rng_stubs! {
+            #[cfg_attr(kani, kani::unwind($unw))]
+            fn $name() {
+                const N: usize = $n;
+                let v: [f64; N] = kani::any();
+                let mut xa = [0f64; 2 * N];
+                let mut y = vec![0f64; N];
+                for i in 0..N {
+                    xa[2 * i] = i as f64;
+                    xa[2 * i + 1] = v[i];
+                    y[i] = 100.0 + i as f64;
+                }
+                let x = DenseMatrix::from_array(N, 2, &xa);
+                let fit = |xt: &DenseMatrix<f64>, yt: &Vec<f64>, _p: ()| -> Result<Echo<N>, Failed> {
+                    let mut seen = [false; N];
+                    vp_assert!(xt.shape().0 == yt.len(), "C16:cv-train-x-and-y-have-the-same-rows");
+                    for i in 0..xt.shape().0 {
+                        let id = xt.get(i, 0) as usize;
+                        vp_assert!(yt[i] == 100.0 + id as f64, "C16:cv-training-target-attached-to-its-row");
+                        vp_assert!(same64(xt.get(i, 1), v[id]), "C16:cv-training-row-intact");
+                        vp_assert!(!seen[id], "C16:cv-training-rows-distinct");
+                        seen[id] = true;
+                    }
+                    Ok(Echo { seen })
+                };
+                for _ in 0..repeats() {
+                    let p = match cross_val_predict(fit, &x, &y, (), KFold { n_splits: $k, shuffle: $shuffle }) {
+                        Ok(p) => p,
+                        Err(e) => {
+                            core::mem::forget(e);
+                            vp_fail!("C16:cross-val-predict-failed")
+                        }
+                    };
+                    vp_assert!(p.len() == N, "C16:cv-one-prediction-per-sample");
+                    for i in 0..N {
+                        // i + 10: predicted by a model that has not seen row i, and placed at row i's own position
+                        vp_assert!(p[i] == i as f64 + 10.0, "C16:cv-prediction-out-of-fold-and-at-original-position");
+                    }
+                }
+                vp_reached!();
+            }
+        }
+    };
+}
+// @vp name=c16_cv_predict_n4_k2 prop=C16 tier=quick t=480 fns=cross_val_predict,KFold::split,BaseMatrix::take,Vec::take size=n=4,k=2 dom=x-column-any-f64-bits,no-shuffle,instrumented-estimator stubs=fake_thread_rng,any_perm,no_format
+cv_predict!(c16_cv_predict_n4_k2, 4, 2, false, 8);
+// @vp name=c16_cv_predict_n3_k2 prop=C16 tier=quick t=480 fns=cross_val_predict,KFold::split,BaseMatrix::take,Vec::take size=n=3,k=2 dom=x-column-any-f64-bits,no-shuffle,instrumented-estimator stubs=fake_thread_rng,any_perm,no_format
+cv_predict!(c16_cv_predict_n3_k2, 3, 2, false, 7);
+// @vp name=c16_cv_predict_shuffle_n3_k2 prop=C16 tier=thorough t=3000 fns=cross_val_predict,KFold::split,BaseMatrix::take,Vec::take size=n=3,k=2 dom=x-column-any-f64-bits,shuffle=arbitrary-permutation,instrumented-estimator stubs=fake_thread_rng,any_perm,no_format
+cv_predict!(c16_cv_predict_shuffle_n3_k2, 3, 2, true, 7);
+
+// cross_validate: each fold's test score is computed on exactly the held-out rows by a model that has not seen them
+// @vp name=c16_cross_validate_n4_k2 prop=C16 tier=quick t=480 fns=cross_validate,KFold::split,BaseMatrix::take,Vec::take size=n=4,k=2 dom=x-column-any-f64-bits,no-shuffle,instrumented-estimator stubs=fake_thread_rng,any_perm,no_format
+rng_stubs! {
+    #[cfg_attr(kani, kani::unwind(8))]
+    fn c16_cross_validate_n4_k2() {
+        const N: usize = 4;
+        let v: [f64; N] = kani::any();
+        let mut xa = [0f64; 2 * N];
+        let mut y = vec![0f64; N];
+        for i in 0..N {
+            xa[2 * i] = i as f64;
+            xa[2 * i + 1] = v[i];
+            y[i] = 100.0 + i as f64;
+        }
+        let x = DenseMatrix::from_array(N, 2, &xa);
+        let fit = |xt: &DenseMatrix<f64>, yt: &Vec<f64>, _p: ()| -> Result<Echo<N>, Failed> {
+            let mut seen = [false; N];
+            for i in 0..xt.shape().0 {
+                let id = xt.get(i, 0) as usize;
+                vp_assert!(yt[i] == 100.0 + id as f64, "C16:cv-training-target-attached-to-its-row");
+                seen[id] = true;
+            }
+            Ok(Echo { seen })
+        };
+        // score = number of predictions that come from a model that had NOT seen the row (prediction - target + 90 == 0)
+        let score = |yt: &Vec<f64>, yp: &Vec<f64>| -> f64 {
+            let mut fresh = 0.0;
+            for i in 0..yt.len() {
+                if yp[i] - (yt[i] - 100.0) == 10.0 {
+                    fresh += 1.0;
+                }
+            }
+            fresh
+        };
+        let r = match cross_validate(fit, &x, &y, (), KFold { n_splits: 2, shuffle: false }, score) {
+            Ok(r) => r,
+            Err(e) => {
+                core::mem::forget(e);
+                vp_fail!("C16:cross-validate-failed")
+            }
+        };
+        vp_assert!(r.test_score.len() == 2 && r.train_score.len() == 2, "C16:cv-one-score-per-fold");
+        for f in 0..2 {
+            // all 2 held-out rows are unseen by the fold's model; none of the 2 training rows is
+            vp_assert!(r.test_score[f] == 2.0, "C16:cv-test-score-on-exactly-the-held-out-rows");
+            vp_assert!(r.train_score[f] == 0.0, "C16:cv-train-score-on-exactly-the-training-rows");
+        }
+        vp_reached!();
+    }
+}
